@@ -118,3 +118,38 @@ func HarnessC10(a []int) {
 }
 
 var _ cemi.Message
+
+func init() {
+	verifHarnesses["HarnessC10Relay"] = HarnessC10Relay
+}
+
+// HarnessC10Relay: a = {late frame: 0 connection-state response, 1 tunnelling acknowledgement;
+// epoch end: 0 disconnect response, 1 socket dies, 2 Close}: a response for the current channel
+// arrives while nobody waits for it, and the server goroutine ends within the relay's offer
+// window; no panic may escape and no goroutine may stay behind.
+func HarnessC10Relay(a []int) {
+	sock := newVSock()
+	conn := vTunnel(sock, false)
+	conn.channel = nondetU8()
+	conn.wait.Add(1)
+	go conn.serve()
+	if a[0] == 0 {
+		sock.in <- &knxnet.ConnStateRes{Channel: conn.channel, Status: knxnet.ErrCode(nondetU8())}
+	} else {
+		sock.in <- &knxnet.TunnelRes{Channel: conn.channel, SeqNumber: nondetU8(), Status: knxnet.ErrCode(nondetU8())}
+	}
+	switch a[1] {
+	case 0:
+		sock.in <- &knxnet.DiscRes{Channel: conn.channel}
+	case 1:
+		close(sock.in)
+	default:
+		conn.Close()
+	}
+	verifSleep(int64(20 * time.Second))
+	alive := verifQuiesce()
+	verifAssert("C10.relay.no_goroutine_left", alive == 0)
+	_, open := <-conn.Inbound()
+	verifAssert("C10.relay.inbound_closed", !open)
+	verifCover("C10.relay.end")
+}
